@@ -41,7 +41,7 @@ Section Simp.
 
   Theorem simplify_subseq p e c r : simplify_gen D d2 ltD dmax dzero p e c = Ok r -> sublist r p.
   Proof.
-    unfold simplify_gen. destruct (length p <? 4); intros H.
+    unfold simplify_gen. destruct (length p <? 3); intros H.
     - inversion H. apply sublist_refl.
     - apply bind_Ok in H as (fl & _ & H). apply collect_sublist in H. exact H.
   Qed.
@@ -238,7 +238,7 @@ Section Simp.
       intros m Hm. rewrite H3 by lia. eapply upd_nth_other; [exact Hu|lia].
   Qed.
 
-  Hypothesis Hhigh : 3 <= high.
+  Hypothesis Hhigh : 2 <= high.
 
   Lemma simp_init_ok :
     exists ds, simp_init D d2 dmax dzero p closed = Ok ds /\ length ds = S high /\
@@ -296,7 +296,7 @@ Section SimpThm.
   Theorem simplify_safe p e c :
     exists r, simplify_gen D d2 ltD dmax dzero p e c = Ok r.
   Proof.
-    unfold simplify_gen. destruct (length p <? 4) eqn:E; [eauto|]. apply Nat.ltb_ge in E.
+    unfold simplify_gen. destruct (length p <? 3) eqn:E; [eauto|]. apply Nat.ltb_ge in E.
     destruct (simp_flags_ok D d2 ltD dmax dzero p (length p - 1) ltac:(lia) c e ltac:(lia)
                 (fun _ _ => True)) as (fl & ds & Hf & Hl & _); [auto|auto|].
     rewrite Hf. cbn [bind]. rewrite collect_full by lia. eauto.
@@ -338,7 +338,7 @@ Section SimpThm.
     2 <= length p -> ltD e dmax = true ->
     exists r, simplify_gen D d2 ltD dmax dzero p e false = Ok r /\ keeps_ends r p = true.
   Proof.
-    intros Hlen Hmax. unfold simplify_gen. destruct (length p <? 4) eqn:E.
+    intros Hlen Hmax. unfold simplify_gen. destruct (length p <? 3) eqn:E.
     - exists p. split; [reflexivity|]. destruct p as [|a t]; [cbn in Hlen; lia|].
       unfold keeps_ends, hd_pt, last_pt, opt_pt_eqb. rewrite !pt_eqb_refl. reflexivity.
     - apply Nat.ltb_ge in E. set (high := length p - 1).
